@@ -107,6 +107,19 @@ def run_scratch(W, cfg):
         return
     W.ob_ok('sufficient scratch accepted')
     W.ob('scratch result = plain result', got, ref)
+    # the same (now dirty) buffer reused: with an explicit smaller output shape, and for a second propagation on a smaller FFT grid
+    small = (max(1, Nr - 1), max(1, Nc - 1))
+    ref2 = lt.propagate_fft(w, pixelscale=du, shape=small, oversample=cfg['os']).field
+    got2 = lt.propagate_fft(w, pixelscale=du, shape=small, oversample=cfg['os'], scratch=scratch).field
+    W.ob('reused scratch, explicit smaller shape', got2, ref2)
+    got3 = lt.propagate_fft(w, pixelscale=du, shape=small, oversample=cfg['os'], scratch=scratch).field
+    W.ob('reused scratch a third time', got3, ref2)
+    if Nr > 2 and Nc > 2:
+        du_s = (du[0] * Nr / (Nr - 1), du[1] * Nc / (Nc - 1))            # FFT grid (Nr-1, Nc-1) with the same wavefront
+        pw = lt.Wavefront(lam) * lt.Pupil(amplitude=W.reals('a2', (1, 1), nz=True) if False else pupil.amplitude[:1, :1], pixelscale=dx, focal_length=f, mask=rnp.ones((1, 1), dtype=int))
+        ref4 = lt.propagate_fft(pw, pixelscale=du_s, oversample=cfg['os']).field
+        got4 = lt.propagate_fft(pw, pixelscale=du_s, oversample=cfg['os'], scratch=scratch).field
+        W.ob('reused scratch for a smaller FFT grid', got4, ref4)
 
 
 def cfg_tilt(tier, seed):
